@@ -10,7 +10,8 @@ package dpos
 //
 // What the engine emulates (no transactions are executed here): the in-memory system
 // parameter BPCOUNT.  In a node it is (1) loaded from the best block's state at start-up and
-// at the end of a reorganisation (system.InitSystemParams), (2) changed by
+// at the end of a reorganisation, and from the fork point's state right after reorg.rollback
+// (system.InitSystemParams), (2) changed by
 // system.CommitParams(true) inside Status.Update after AddSnapshot when the block just
 // executed changed the parameter.  The engine keeps the value per node and installs it
 // with the real system.InitSystemParams before every call into the consensus code.
@@ -235,6 +236,8 @@ func (w *c08ElWorld) deliverEl(t *testing.T, nd *c08ElNode, blk *types.Block, o 
 	}
 	o.NeedReorg = 1
 	w.update(t, nd, root, false)
+	// reorg.rollback is followed by cs.reloadSystemParams(): parameters of the fork point's state (F41)
+	nd.mem = w.param(root)
 	for i := len(newBlocks) - 1; i >= 0; i-- {
 		w.update(t, nd, newBlocks[i], true)
 	}
